@@ -476,10 +476,40 @@ fn user_frame_ops(st: &mut Stream, rng: &mut Rng) {
     } }
 }
 
+/// `zip_map_in_place` takes two DIFFERENT frame types: the only requirement on them is the same number of FRAMES.
+/// Every pair of lengths 0..=6 for (stereo, mono), ([i16; 4], [i16; 3]), ([f64; 6], f64) and the reverse directions:
+/// equal frame counts -> element-wise result, unequal -> panic with `a` untouched (sample counts are irrelevant).
+fn mixed_layout_zip_map(st: &mut Stream, rng: &mut Rng) {
+    macro_rules! pair { ($name:expr, $FA:ty, $FB:ty, $mka:expr, $mkb:expr, $f:expr) => {
+        for la in 0..=6usize { for lb in 0..=6usize {
+            let a0: Vec<$FA> = (0..la).map(|i| ($mka)(rng.range(-50, 50), i)).collect();
+            let b: Vec<$FB> = (0..lb).map(|i| ($mkb)(rng.range(-50, 50), i)).collect();
+            let mut a = a0.clone();
+            let case = format!("zip_map_in_place with frame types {}: a = {:?}, b = {:?}", $name, a0, b);
+            mark(0, &case);
+            let r = guarded(|| dasp_slice::zip_map_in_place(&mut a[..], &b[..], $f));
+            let want: Option<Vec<$FA>> = if la == lb { Some(a0.iter().zip(b.iter()).map(|(x, y)| ($f)(*x, *y)).collect()) } else { None };
+            match (&want, r.is_some()) {
+                (Some(w), true) if *w == a => st.oracle_ok(la as u64 + 1),
+                (None, false) if a == a0 => st.oracle_ok(1),
+                _ => st.oracle_fail("zip_map_in_place over two different frame types: equal FRAME counts must give the element-wise result, unequal ones must be refused by panicking before modifying anything", &case, &format!("{:?}", want), &format!("{} {:?}", if r.is_some() { "returned" } else { "panicked" }, a)),
+            }
+            st.count("zip_map_mixed_frame_types");
+        } }
+    } }
+    pair!("([i16; 2], i16)", [i16; 2], i16, |v: i64, i: usize| [v as i16, i as i16], |v: i64, _i: usize| v as i16, |x: [i16; 2], y: i16| [x[0] + y, x[1] - y]);
+    pair!("(i16, [i16; 2])", i16, [i16; 2], |v: i64, _i: usize| v as i16, |v: i64, i: usize| [v as i16, i as i16], |x: i16, y: [i16; 2]| x + y[0] - y[1]);
+    pair!("([i16; 4], [i16; 3])", [i16; 4], [i16; 3], |v: i64, i: usize| [v as i16, i as i16, 1, 2], |v: i64, i: usize| [v as i16, 3, i as i16], |x: [i16; 4], y: [i16; 3]| [x[0] + y[0], x[1] + y[1], x[2] + y[2], x[3]]);
+    pair!("([i16; 3], [i16; 4])", [i16; 3], [i16; 4], |v: i64, i: usize| [v as i16, 3, i as i16], |v: i64, i: usize| [v as i16, i as i16, 1, 2], |x: [i16; 3], y: [i16; 4]| [x[0] + y[3], x[1] + y[0], x[2]]);
+    pair!("([f64; 6], f64)", [f64; 6], f64, |v: i64, i: usize| [v as f64, i as f64, 0.5, 1.0, 2.0, 4.0], |v: i64, _i: usize| v as f64 / 4.0, |x: [f64; 6], y: f64| [x[0] * y, x[1] + y, x[2], x[3], x[4], x[5] - y]);
+    pair!("(f64, [f64; 6])", f64, [f64; 6], |v: i64, _i: usize| v as f64 / 4.0, |v: i64, i: usize| [v as f64, i as f64, 0.5, 1.0, 2.0, 4.0], |x: f64, y: [f64; 6]| x + y[0] + y[5]);
+}
+
 fn run_ops(a: &Args) {
     let mut st = Stream::new(&a.out, "ops");
     let mut rng = Rng::new(a.seed, "ops");
     user_frame_ops(&mut st, &mut rng);
+    mixed_layout_zip_map(&mut st, &mut rng);
     let ns: Vec<usize> = if a.thorough() { (1..=32).collect() } else { vec![1, 2, 3, 4, 8, 32] };
     const OPS: [&str; 6] = ["equilibrium", "map", "zipmap", "write", "add", "addamp"];
     for fmt in FMTS { for &n in ns.iter() { for name in OPS {
